@@ -415,6 +415,10 @@ impl<'a, B: SddBuilder<'a>> Sw<'a, B> {
     }
 
     fn issue(&mut self, op: SOp) -> Option<SddPtr<'a>> {
+        // another object of the library is created, used and dropped on this thread now and then
+        if self.opno % 509 == 17 {
+            crate::props::bddutil::interloper((self.opno / 509) as usize);
+        }
         let n = self.n;
         let b = self.b;
         let f = &self.f;
@@ -790,6 +794,54 @@ fn sweep<'a, B: SddBuilder<'a>>(b: &'a B, cfg: &SCfg, ctx: &Ctx) -> Report {
                 if s.stop {
                     break 'p;
                 }
+            }
+        }
+        s.recheck_pool();
+    }
+    // A(f), D(degenerate operand), B(f): two conditioning / quantification operations on one function with
+    // the same kind of operation on a constant or a literal in between. A call on a degenerate operand takes
+    // the early exits of the implementation; whatever bookkeeping (a tag, a "current variable", a memo that
+    // is cleared on one path only) it leaves half-updated meets B
+    if !s.stop && total <= 256 && !crate::core::disabled("adb") {
+        let have: std::collections::HashSet<usize> = perm.iter().cloned().collect();
+        let m = tt::mask(n);
+        let mut degenerate: Vec<SOp> = Vec::new();
+        for v in 0..n {
+            let other = (v + 1) % n;
+            for c in [if v % 2 == 0 { m } else { 0 as TT }, if v % 2 == 0 { tt::var(other, n) } else { tt::var(v, n) }] {
+                if !have.contains(&(c as usize)) {
+                    continue;
+                }
+                degenerate.push(SOp::Cond(c, v, true));
+                degenerate.push(SOp::Cond(c, v, false));
+                degenerate.push(SOp::Exists(c, v));
+            }
+        }
+        // (quick: every 4th function, rotating with the configuration)
+        let astep = if ctx.tier == Tier::Quick { 4 } else { 1 };
+        'adb: for &i in perm.iter().skip(cfg.issue % astep).step_by(astep) {
+            let x = i as TT;
+            let mut ops: Vec<SOp> = Vec::new();
+            for v in 0..n {
+                ops.push(SOp::Cond(x, v, true));
+                ops.push(SOp::Cond(x, v, false));
+                ops.push(SOp::Exists(x, v));
+            }
+            for a in ops.iter() {
+                for d in degenerate.iter() {
+                    for b in ops.iter() {
+                        s.issue(a.clone());
+                        s.issue(d.clone());
+                        s.issue(b.clone());
+                    }
+                }
+                if s.stop {
+                    break 'adb;
+                }
+            }
+            if ctx.over_time() || ctx.over_mem() {
+                s.rep.cap("wall-clock or memory cap inside the A-D-B triples");
+                break;
             }
         }
         s.recheck_pool();
